@@ -136,7 +136,9 @@ static void install_arbitrary_state() {
     for (int i = 0; i < VSZ; i++) { vtA[i] = nondet_u64(); vtD[i] = nondet_u64(); vtC[i] = nondet_u64(); }
     for (int i = 0; i < TSZ; i++) table[i] = nondet_u64();
     P::static_vptr<Animal> = vtA; P::static_vptr<Dog> = vtD; P::static_vptr<Cat> = vtC;
-    // Unreg: update never wrote its static_vptr
+    // Unreg: the current update did not register it; its static v-table pointer is whatever an earlier update
+    // (when the class was still registered) left there, or null
+    { static std::uintptr_t stale_vt[VSZ]; unsigned was_registered = nondet_u32() & 1; P::static_vptr<Unreg> = was_registered ? stale_vt : nullptr; }
 #if POL == 2 || POL == 3
     P::hash_mult = nondet_u64() | 1;
     P::hash_shift = verif_range(64 - 3, 63);  // 2..8 buckets
